@@ -340,6 +340,10 @@ class Model:
                 v = self.single_value(e.id)
                 if v is not None and self.transparent(v) and not self._mutated_after_def(e.id):
                     return self.resolve(v, frozenset(), depth + 1)
+                if not self.binds.get(e.id):
+                    c = self.module_constant(e)
+                    if c is not None:
+                        return _copy_node(c)
             return _copy_node(e)
         if isinstance(e, ast.Attribute) and isinstance(e.value, ast.Name) and e.value.id == self.selfname and isinstance(e.ctx, ast.Load) and self.draw.cls is not None:
             m = self.repo.lookup_method(self.draw.cls, e.attr)
@@ -353,6 +357,9 @@ class Model:
                 fld = self._field_of_new_object(base, e.attr)
                 if fld is not None:
                     return self.resolve(fld, bound, depth + 1)
+                prop = self._property_of_new_object(base, e.attr)
+                if prop is not None:
+                    return self.resolve(prop, bound, depth + 1)
         if isinstance(e, (ast.ListComp, ast.SetComp, ast.GeneratorExp, ast.DictComp)):
             new = _copy_node(e)
             inner = bound
@@ -387,6 +394,76 @@ class Model:
             if hasattr(e, a):
                 setattr(new, a, getattr(e, a))
         return new
+
+    def _property_of_new_object(self, call: ast.Call, attr: str) -> ast.expr | None:
+        """`Helper(args).prop` for a repo class with `@property def prop(self): return <expr>`: the expression with `self` := the call"""
+        from .common import types_of
+
+        ctx, orig = getattr(call, "_src", None) or getattr(call, "_orig", None) or (self.V, call)
+        if not isinstance(orig, ast.Call):
+            return None
+        try:
+            ci = types_of(self.repo).ctor_class(ctx, orig)
+        except Exception:  # noqa: BLE001
+            return None
+        meth = self.repo.lookup_method(ci, attr) if ci is not None else None
+        if meth is None or not meth.is_property or not meth.param_names:
+            return None
+        body = [s_ for s_ in meth.node.body if not (isinstance(s_, ast.Expr) and isinstance(s_.value, ast.Constant))]
+        if len(body) != 1 or not isinstance(body[0], ast.Return) or body[0].value is None:
+            return None
+        selfname = meth.param_names[0]
+
+        class S(ast.NodeTransformer):
+            def visit_Name(self, node):  # noqa: N802
+                return _copy_node(call) if node.id == selfname else node
+
+        return S().visit(_tagged_copy(body[0].value, meth))
+
+    def module_constant(self, e: ast.Name) -> ast.Constant | None:
+        """a module-level name (of the module the expression came from, possibly imported) bound to a str / int literal"""
+        ctx = (getattr(e, "_src", None) or getattr(e, "_orig", None) or (self.V, e))[0]
+        mod = ctx.module
+        for _ in range(3):
+            v = mod.constants.get(e.id) if hasattr(mod, "constants") else None
+            if isinstance(v, ast.Constant) and isinstance(v.value, (str, int)) and not isinstance(v.value, bool):
+                return v
+            fq = getattr(mod, "imports", {}).get(e.id)
+            if not fq or "." not in fq:
+                return None
+            modname, name = fq.rsplit(".", 1)
+            m2 = self.repo.modules.get(modname) if isinstance(getattr(self.repo, "modules", None), dict) else None
+            if m2 is None or name != e.id:
+                return None
+            mod = m2
+        return None
+
+    def depends_on_aliases(self, e: ast.AST, depth: int = 0, seen: frozenset = frozenset()) -> bool:
+        """`e` is computed (through any chain of locals, also opaque ones such as next(...) results and loop variables) from the alias mapping"""
+        if depth > 8:
+            return False
+        for x in ast.walk(e):
+            if isinstance(x, ast.expr) and self.is_A(x):
+                return True
+            if isinstance(x, ast.Name) and isinstance(x.ctx, ast.Load) and x.id not in seen:
+                for b in self.binds.get(x.id, []):
+                    if b.value is not None and self.depends_on_aliases(b.value, depth + 1, seen | {x.id}):
+                        return True
+        return False
+
+    def depends_on_name(self, e: ast.AST, name: str, depth: int = 0, seen: frozenset = frozenset()) -> bool:
+        """`e` reads local `name`, directly or through other locals (a value carried from one loop iteration / branch to the next)"""
+        if depth > 8:
+            return False
+        for x in ast.walk(e):
+            if isinstance(x, ast.Name) and isinstance(x.ctx, ast.Load):
+                if x.id == name:
+                    return True
+                if x.id not in seen:
+                    for b in self.binds.get(x.id, []):
+                        if b.kind == "assign" and b.value is not None and self.depends_on_name(b.value, name, depth + 1, seen | {x.id}):
+                            return True
+        return False
 
     def _field_of_new_object(self, call: ast.Call, attr: str) -> ast.expr | None:
         """`Helper(args).attr` for a repo class whose constructor stores `self.attr = <expr over its parameters>`: that expression
